@@ -318,7 +318,8 @@ def coq_correspondence(ctx, cases, res, tag):
     """model write == file, model read(file) == femio's read-back, and the
     model's own verdict on the property, all evaluated by vm_compute"""
     bad_w, bad_r, model_prop_false = [], [], []
-    chunk = 120
+    chunk = 60
+    jobs = []
     for k in range(0, len(cases), chunk):
         part = cases[k:k + chunk]
         txt = list(HEADER)
@@ -352,7 +353,11 @@ def coq_correspondence(ctx, cases, res, tag):
             txt.append(f'Definition cases{nm} : list (nat * bool) := {lib.coq_list(l)}.')
             txt.append(f'Goal True. idtac "@@ {nm}". Abort.')
             txt.append(f'Eval vm_compute in map fst (filter (fun c => negb (snd c)) cases{nm}).')
-        rc, out, err = ctx.coq_eval(f'Corr_{tag}_{k // chunk}', '\n'.join(txt) + '\n', timeout=900)
+        jobs.append((part, f'Corr_{tag}_{k // chunk}', '\n'.join(txt) + '\n'))
+    from concurrent.futures import ThreadPoolExecutor
+    with ThreadPoolExecutor(max_workers=6) as ex:
+        results = list(ex.map(lambda j: ctx.coq_eval(j[1], j[2], timeout=900), jobs))
+    for (part, _, _), (rc, out, err) in zip(jobs, results):
         if rc != 0:
             ctx.log('correspondence file failed to compile:', err[-800:])
             bad_w += [c['id'] for c in part]
@@ -534,6 +539,8 @@ def main(ctx):
         for n in lib.theorem_names(lib.COQ / 'C04' / 'Props.v'):
             ctx.obligations.append({'name': n, 'discharged': False, 'assumptions': [],
                                     'note': 'translator failed closed'})
+    if tie_ok and proof_ok and ctx.tier == 'thorough' and hasattr(ctx, 'coqchk'):
+        ctx.coqchk('C04/Props.v')
     ctx.notes['writer_binding'] = {k: cfg[k] for k in ('nodal_by_id', 'elemental_by_id')} if cfg else None
     # 2b. per-run obligation: the translated writer binds rows by id; with it the
     #     unconditional round-trip theorem is obtained
